@@ -380,7 +380,48 @@ func c06Schema(j any) *openapi3.SchemaRef {
 	for _, x := range jlist(m["allOf"]) {
 		s.AllOf = append(s.AllOf, c06Schema(x))
 	}
+	if d, ok := m["dflt"]; ok && d != nil {
+		s.Default = jToGo(d) // what the loader makes of a `default` in a JSON document (numbers: float64)
+	}
 	return s.NewRef()
+}
+
+// jToGo: a value in case notation as the Go value encoding/json (without UseNumber) yields.
+func jToGo(v any) any {
+	switch x := v.(type) {
+	case nil:
+		return nil
+	case bool:
+		return x
+	case map[string]any:
+		if n, ok := x["i"]; ok {
+			k, _ := jnum(n)
+			return float64(k)
+		}
+		if n, ok := x["h"]; ok {
+			k, _ := jnum(n)
+			return float64(k) + 0.5
+		}
+		if s, ok := x["s"]; ok {
+			return fmt.Sprint(s)
+		}
+		if a, ok := x["a"]; ok {
+			l := []any{}
+			for _, e := range jlist(a) {
+				l = append(l, jToGo(e))
+			}
+			return l
+		}
+		if o, ok := x["o"]; ok {
+			mm := map[string]any{}
+			for _, kv := range jlist(o) {
+				p := jlist(kv)
+				mm[fmt.Sprint(p[0])] = jToGo(p[1])
+			}
+			return mm
+		}
+	}
+	return nil
 }
 
 func c06Encodings(v any) map[string]*openapi3.Encoding {
@@ -434,7 +475,8 @@ func runC06(c hx.Case) any {
 		}
 	}
 	in := &openapi3filter.RequestValidationInput{Request: req,
-		Options: &openapi3filter.Options{ExcludeReadOnlyValidations: jbool(c, "exro"), MultiError: jbool(c, "multi")}}
+		Options: &openapi3filter.Options{ExcludeReadOnlyValidations: jbool(c, "exro"), MultiError: jbool(c, "multi"),
+			SkipSettingDefaults: jbool(c, "skipDefaults")}}
 	verr := openapi3filter.ValidateRequestBody(context.Background(), in, rb)
 	out := map[string]any{"ok": verr == nil, "outcome": c06Classify(verr)}
 	if verr != nil {
@@ -481,6 +523,8 @@ func c06Classify(err error) string {
 		return "decodeErr"
 	case strings.HasPrefix(re.Reason, "doesn't match schema"):
 		return "schemaErr"
+	case re.Reason == "rewriting failed":
+		return "rewriteErr"
 	}
 	return "other:" + re.Reason
 }
@@ -531,6 +575,11 @@ func cmpC06(c hx.Case, impl any, reply map[string]any) hx.Verdict {
 			v.IS = false
 			v.Detail += fmt.Sprintf(" decoder failed (%v) but the body encodes %s", idec, canonJ(sdec["v"]))
 		}
+	}
+	// under default-setting the request-side reading of the property decides the verdict only where defaults are
+	// neutral ("applies"); elsewhere the verdict is taken on the completed value (C13's subject): I vs M only
+	if applies, ok := spec["applies"].(bool); ok && !applies {
+		return v
 	}
 	if jbool(im, "ok") != jbool(spec, "accept") {
 		v.IS = false
@@ -970,6 +1019,8 @@ func genC06(ctx *hx.Ctx, emit func(hx.Case)) {
 			emit(mkCase(true, []any{mtEntry("application/json", js), mtEntry("application/*", js)}, ct, text, false))
 		}
 	}
+	// (E) default injection (DefaultsSet is installed unless Options.SkipSettingDefaults)
+	genDefaults(ctx, emit)
 	// random stream
 	nr := 6000
 	if ctx.Thorough() {
@@ -1074,6 +1125,283 @@ func genMultipart(ctx *hx.Ctx, emit func(hx.Case)) {
 	}
 }
 
+// genDefaults: schemas with `default` on plain / readOnly / writeOnly properties, both settings of
+// SkipSettingDefaults and of ExcludeReadOnlyValidations.
+func genDefaults(ctx *hx.Ctx, emit func(hx.Case)) {
+	J := "application/json"
+	mk := func(s any, v any, exro, skip bool) hx.Case {
+		c := mkCase(true, []any{mtEntry(J, s)}, J, renderJ(v, false, false), exro)
+		c["skipDefaults"] = skip
+		return c
+	}
+	both := func(s any, v any) {
+		for _, exro := range []bool{false, true} {
+			for _, skip := range []bool{false, true} {
+				emit(mk(s, v, exro, skip))
+			}
+		}
+	}
+	cnt := 0
+	// (E1) one object schema: a × {plain, readOnly, writeOnly} × type × default × nullable; b integer with/without default;
+	// every required subset; additionalProperties; 4 × 2 values
+	aTys := []any{nil, "integer", "string"}
+	dflts := []any{nil, jI(1), jS("x")}
+	reqSets := [][]any{{}, {"a"}, {"b"}, {"a", "b"}}
+	aVals := []any{"absent", nil, jS("x"), jI(1)}
+	for kind := 0; kind < 3; kind++ {
+		for _, aty := range aTys {
+			for _, ad := range dflts {
+				for nullable := 0; nullable < 2; nullable++ {
+					for bd := 0; bd < 2; bd++ {
+						for _, rs := range reqSets {
+							for addl := 0; addl < 2; addl++ {
+								pa := sch("ro", kind == 1, "wo", kind == 2, "nullable", nullable == 1)
+								if aty != nil {
+									pa["ty"] = aty
+								}
+								if ad != nil {
+									pa["dflt"] = ad
+								}
+								pb := sch("ty", "integer")
+								if bd == 1 {
+									pb["dflt"] = jI(2)
+								}
+								s := sch("ty", "object", "props", []any{[]any{"a", pa}, []any{"b", pb}}, "required", rs)
+								if addl == 1 {
+									s["addl"] = false
+								}
+								for vi := 0; vi < 8; vi++ {
+									cnt++
+									if !ctx.Thorough() && cnt%4 != 0 {
+										continue
+									}
+									kvs := []any{}
+									if av := aVals[vi&3]; av != "absent" {
+										kvs = append(kvs, "a", av)
+									}
+									if vi&4 != 0 {
+										kvs = append(kvs, "b", jI(5))
+									}
+									both(s, jO(kvs...))
+								}
+							}
+						}
+					}
+				}
+			}
+		}
+	}
+	// (E2) defaults declared inside composition members; siblings that require / forbid / re-declare the property
+	for _, kw := range []string{"allOf", "anyOf", "oneOf"} {
+		for kind := 0; kind < 3; kind++ {
+			for _, ad := range []any{jI(1), jS("x")} {
+				for mreq := 0; mreq < 2; mreq++ {
+					for second := 0; second < 7; second++ {
+						for top := 0; top < 3; top++ { // 0 nothing, 1 required a, 2 additionalProperties false
+							pa := sch("ty", "integer", "ro", kind == 1, "wo", kind == 2, "dflt", ad)
+							m1 := sch("props", []any{[]any{"a", pa}})
+							if mreq == 1 {
+								m1["required"] = []any{"a"}
+							}
+							members := []any{m1}
+							switch second {
+							case 1:
+								members = append(members, sch("required", []any{"a"}))
+							case 2:
+								members = append(members, sch("props", []any{[]any{"a", sch("ro", true)}}))
+							case 3:
+								members = append(members, sch("props", []any{[]any{"b", sch("ty", "integer")}}, "addl", false))
+							case 4:
+								members = append(members, sch("props", []any{[]any{"b", sch("ty", "integer", "dflt", jI(2))}}, "required", []any{"b"}))
+							case 5:
+								members = append([]any{sch("required", []any{"a"})}, members...)
+							case 6:
+								members = append(members, sch("props", []any{[]any{"a", sch("ty", "string")}}))
+							}
+							s := sch("ty", "object", kw, members)
+							switch top {
+							case 1:
+								s["required"] = []any{"a"}
+							case 2:
+								s["addl"] = false
+								s["props"] = []any{[]any{"b", sch("ty", "integer")}}
+							}
+							for _, v := range []any{jO(), jO("a", jI(3)), jO("b", jI(2)), jO("a", jI(3), "b", jI(2)), jO("a", jS("y"))} {
+								cnt++
+								if !ctx.Thorough() && cnt%3 != 0 {
+									continue
+								}
+								both(s, v)
+							}
+						}
+					}
+				}
+			}
+		}
+	}
+	// (E3) nested defaults: an object default that is itself completed, items with defaults, a default that carries a
+	// read-only member, defaults at two levels, a property schema that is a composition with a default on it
+	{
+		inner := sch("ty", "object", "props", []any{[]any{"k", sch("ty", "integer")}, []any{"m", sch("ty", "string", "dflt", jS("q"))}}, "required", []any{"m"})
+		withD := func(d any) map[string]any {
+			x := sch()
+			for k, v := range inner {
+				x[k] = v
+			}
+			x["dflt"] = d
+			return x
+		}
+		roIn := sch("ty", "object", "props", []any{[]any{"id", sch("ty", "integer", "ro", true)}}, "dflt", jO("id", jI(1)))
+		schemas := []any{
+			sch("ty", "object", "props", []any{[]any{"o", withD(jO("k", jI(1)))}}),
+			sch("ty", "object", "props", []any{[]any{"o", withD(jO("k", jS("bad")))}}),
+			sch("ty", "object", "props", []any{[]any{"o", withD(jO())}}, "required", []any{"o"}),
+			sch("ty", "object", "props", []any{[]any{"o", inner}}),
+			sch("ty", "array", "items", inner),
+			sch("ty", "object", "props", []any{[]any{"l", sch("ty", "array", "items", inner, "dflt", jA(jO(), jO("k", jI(2))))}}),
+			sch("ty", "object", "props", []any{[]any{"o", roIn}}),
+			sch("ty", "object", "props", []any{[]any{"p", sch("anyOf", []any{sch("ty", "integer"), sch("ty", "string")}, "dflt", jI(1))}}),
+			sch("ty", "object", "props", []any{[]any{"p", sch("oneOf", []any{sch("ty", "integer"), sch("ty", "number")}, "dflt", jI(1))}}),
+			sch("ty", "object", "props", []any{[]any{"a", sch("ty", "integer", "dflt", jI(1), "max", 0)}}),
+			sch("ty", "object", "props", []any{[]any{"a", sch("ty", "string", "dflt", jS("x"), "minLen", 2, "ro", true)}}, "required", []any{"a"}),
+			sch("props", []any{[]any{"a", sch("dflt", jI(1))}}),
+			sch("ty", "object", "not", sch("required", []any{"a"}), "props", []any{[]any{"a", sch("dflt", jI(1))}}),
+			sch("ty", "object", "allOf", []any{sch("props", []any{[]any{"a", sch("dflt", jI(1))}}), sch("not", sch("required", []any{"a"}))}),
+			sch("ty", "object", "oneOf", []any{sch("required", []any{"a"}, "props", []any{[]any{"a", sch("dflt", jI(1))}}), sch("required", []any{"b"}, "props", []any{[]any{"b", sch("dflt", jI(2))}})}),
+			sch("ty", "object", "anyOf", []any{sch("required", []any{"z"}, "props", []any{[]any{"a", sch("dflt", jI(1))}}), sch("props", []any{[]any{"b", sch("dflt", jI(2))}})}),
+			sch("ty", "object", "props", []any{[]any{"a", sch("nullable", true, "dflt", jI(1))}}, "required", []any{"a"}),
+		}
+		values := []any{jO(), jO("o", jO()), jO("o", jO("k", jI(3))), jO("o", jO("m", jS("z"))), jO("o", nil), jA(), jA(jO()), jA(jO("k", jI(1)), jO("m", jS("w"))),
+			jO("l", jA(jO())), jO("p", jS("s")), jO("a", jI(5)), jO("a", nil), jO("a", jS("long")), jO("b", jI(1)), jO("a", jI(1), "b", jI(2)), jS("x"), nil}
+		for _, s := range schemas {
+			for _, v := range values {
+				both(s, v)
+			}
+		}
+	}
+	// (E4) media types without a body encoder: urlencoded and multipart bodies against flat schemas with defaults
+	{
+		fct := "application/x-www-form-urlencoded"
+		bd := "XbX"
+		mct := "multipart/form-data; boundary=" + bd
+		for kind := 0; kind < 3; kind++ {
+			for _, ad := range []any{nil, jI(1), jS("x")} {
+				for layout := 0; layout < 3; layout++ { // own property, inside allOf, inside anyOf
+					for rq := 0; rq < 2; rq++ {
+						pa := sch("ty", "integer", "ro", kind == 1, "wo", kind == 2)
+						if ad != nil {
+							pa["dflt"] = ad
+						}
+						pb := sch("ty", "string")
+						s := sch("ty", "object", "props", []any{[]any{"a", pa}, []any{"b", pb}})
+						switch layout {
+						case 1:
+							s = sch("ty", "object", "allOf", []any{sch("props", []any{[]any{"a", pa}}), sch("props", []any{[]any{"b", pb}})})
+						case 2:
+							s = sch("ty", "object", "anyOf", []any{sch("props", []any{[]any{"a", pa}})}, "props", []any{[]any{"b", pb}})
+						}
+						if rq == 1 {
+							s["required"] = []any{"a"}
+						}
+						for _, text := range []string{"b=x", "a=2&b=x", "a=2", "a=&b=x", "a=x&b=y"} {
+							for _, exro := range []bool{false, true} {
+								for _, skip := range []bool{false, true} {
+									c := mkCase(true, []any{mtEntry(fct, s)}, fct, text, exro)
+									c["skipDefaults"] = skip
+									emit(c)
+								}
+							}
+						}
+						if layout == 2 {
+							continue // multipart looks only at allOf members / own properties
+						}
+						for _, parts := range [][]c06Part{{{name: "b", text: "x"}}, {{name: "a", ct: "application/json", text: "2"}, {name: "b", text: "x"}}, {{name: "a", ct: "application/json", text: "2"}}, {}} {
+							for _, exro := range []bool{false, true} {
+								for _, skip := range []bool{false, true} {
+									c := mkCase(true, []any{mtEntry("multipart/form-data", s)}, mct, renderMultipart(bd, parts, false), exro)
+									c["skipDefaults"] = skip
+									emit(c)
+								}
+							}
+						}
+					}
+				}
+			}
+		}
+		// text/plain and octet-stream: the value is a string, nothing can be injected
+		for _, ct := range []string{"text/plain", "application/octet-stream"} {
+			for _, s := range []any{sch("ty", "string", "dflt", jS("d")), sch("props", []any{[]any{"a", sch("dflt", jI(1))}}), sch("ty", "object", "props", []any{[]any{"a", sch("dflt", jI(1))}})} {
+				for _, skip := range []bool{false, true} {
+					c := mkCase(true, []any{mtEntry(ct, s)}, ct, "abc", false)
+					c["skipDefaults"] = skip
+					emit(c)
+				}
+			}
+		}
+		// the six JSON media types have an encoder each
+		for _, ct := range []string{"application/json", "application/json-patch+json", "application/ld+json", "application/hal+json", "application/vnd.api+json", "application/problem+json", "application/problem+json; charset=utf-8"} {
+			s := sch("ty", "object", "props", []any{[]any{"a", sch("ty", "integer", "dflt", jI(1))}})
+			for _, text := range []string{"{}", `{"a":2}`, `{"a":"x"}`} {
+				emit(mkCase(true, []any{mtEntry("*/*", s)}, ct, text, false))
+			}
+		}
+	}
+}
+
+// c06StripDflt removes every `default` (used below `not`: outside the model).
+func c06StripDflt(s map[string]any) map[string]any {
+	out := map[string]any{}
+	for k, v := range s {
+		switch k {
+		case "dflt":
+		case "props":
+			l := []any{}
+			for _, kv := range jlist(v) {
+				p := jlist(kv)
+				if pm, ok := p[1].(map[string]any); ok {
+					l = append(l, []any{p[0], c06StripDflt(pm)})
+				} else {
+					l = append(l, kv)
+				}
+			}
+			out[k] = l
+		case "items", "not":
+			if m, ok := v.(map[string]any); ok {
+				out[k] = c06StripDflt(m)
+			} else {
+				out[k] = v
+			}
+		case "oneOf", "anyOf", "allOf":
+			l := []any{}
+			for _, x := range jlist(v) {
+				if m, ok := x.(map[string]any); ok {
+					l = append(l, c06StripDflt(m))
+				} else {
+					l = append(l, x)
+				}
+			}
+			out[k] = l
+		default:
+			out[k] = v
+		}
+	}
+	return out
+}
+
+// c06AddDflt gives a property schema a default: mostly one directed by the schema (conforming unless mutated),
+// sometimes an arbitrary leaf.
+func c06AddDflt(r *hx.Rng, p map[string]any) {
+	var d any
+	if r.Chance(75) {
+		d = c06RandValue(r, c06StripDflt(p), 2)
+	} else {
+		d = randLeaf(r)
+	}
+	if d != nil {
+		p["dflt"] = d
+	}
+}
+
 // ---- random stream
 
 var c06Names = []string{"a", "b", "c", "d"}
@@ -1113,6 +1441,9 @@ func c06RandSchema(r *hx.Rng, depth int) map[string]any {
 				} else if r.Chance(20) {
 					p["wo"] = true
 				}
+				if r.Chance(22) {
+					c06AddDflt(r, p)
+				}
 				props = append(props, []any{n, p})
 			}
 		}
@@ -1147,6 +1478,9 @@ func c06RandSchema(r *hx.Rng, depth int) map[string]any {
 						} else if r.Chance(15) {
 							p["wo"] = true
 						}
+						if r.Chance(25) {
+							c06AddDflt(r, p)
+						}
 						props = append(props, []any{n, p})
 					}
 				}
@@ -1169,7 +1503,7 @@ func c06RandSchema(r *hx.Rng, depth int) map[string]any {
 		}
 		kw := hx.Pick(r, []string{"allOf", "anyOf", "oneOf", "allOf", "anyOf", "oneOf", "not"})
 		if kw == "not" {
-			s["not"] = member()
+			s["not"] = c06StripDflt(member()) // defaults below `not` are outside the model
 		} else {
 			ms := []any{}
 			for i, k := 0, 1+r.Intn(3); i < k; i++ {
@@ -1326,6 +1660,9 @@ func randCase(r *hx.Rng) hx.Case {
 	if r.Chance(20) {
 		c["multi"] = true // MultiError: the verdict must not depend on it
 	}
+	if r.Chance(30) {
+		c["skipDefaults"] = true
+	}
 	if r.Chance(5) && jstr(c["body"].(map[string]any), "text") == "" {
 		c["emptyReader"] = true
 	}
@@ -1421,6 +1758,16 @@ func randCase0(r *hx.Rng) hx.Case {
 					p = sch("oneOf", []any{other, p})
 				default:
 					p = sch("allOf", []any{p})
+				}
+			}
+			if r.Chance(15) {
+				switch r.Intn(3) {
+				case 0:
+					p["dflt"] = jS("d")
+				case 1:
+					p["dflt"] = jI(r.Intn(5))
+				default:
+					p["dflt"] = jA(jI(1))
 				}
 			}
 			props = append(props, []any{n, p})
@@ -1536,6 +1883,9 @@ func randCase0(r *hx.Rng) hx.Case {
 			if r.Chance(20) {
 				p["ro"] = true
 			}
+			if r.Chance(15) {
+				p["dflt"] = hx.Pick(r, []any{jS("d"), jI(3), jO("k", jI(1)), jA(jS("z"))})
+			}
 			props = append(props, []any{n, p})
 			if r.Chance(30) {
 				req = append(req, n)
@@ -1644,6 +1994,16 @@ func shrinkC06(c hx.Case) []hx.Case {
 		x["exro"] = false
 		out = append(out, x)
 	}
+	if jbool(c, "skipDefaults") {
+		x := cloneCase(c)
+		delete(x, "skipDefaults")
+		out = append(out, x)
+	}
+	if jbool(c, "multi") {
+		x := cloneCase(c)
+		delete(x, "multi")
+		out = append(out, x)
+	}
 	if i := strings.IndexByte(ct, ';'); i >= 0 && c06Base(ct) != "multipart/form-data" {
 		x := cloneCase(c)
 		x["ct"] = ct[:i]
@@ -1688,7 +2048,7 @@ func c06ShrinkSchema(s map[string]any) []map[string]any {
 			out = append(out, x)
 		}
 	}
-	for _, k := range []string{"nullable", "ro", "wo", "minLen", "max", "addl"} {
+	for _, k := range []string{"nullable", "ro", "wo", "minLen", "max", "addl", "dflt"} {
 		if v, ok := s[k]; ok && v != nil && v != false {
 			x := cp()
 			delete(x, k)
